@@ -141,6 +141,6 @@ def run(chk, facts, tier):
             v = ret_value(rets[0]) if len(rets) == 1 else None
             if v is not None and v.is_call() and v.cn.startswith('radio_'):
                 continue   # delegated to the radio's hardware list
-            b = as_binop(v) if v is not None else None
-            ok = b is not None and b[0] == '||' and strip_casts(b[1]).k == 'UnaryOperator' and is_name(strip_casts(b[1]).c[0], flag) and b[2].is_call('is_in_white_list') and is_name(b[2].args()[0], fn.params[0]['n'])
+            from .C26 import filter_form_ok
+            ok = filter_form_ok(fn, flag)
             chk.instance('filter-semantics', fn, '%s: !%s || is_in_white_list(addr)' % (name, flag), ok, '' if ok else 'filter decision changed', key=name)
